@@ -77,20 +77,28 @@ impl UserDefinedDataReader {
         &mut self,
         publication_builtin_topic_data: PublicationBuiltinTopicData,
     ) {
-        match self
+        // A QoS update of an already matched writer is not a new match
+        let is_new_match = match self
             .matched_publication_list
             .iter_mut()
             .find(|x| x.key() == publication_builtin_topic_data.key())
         {
-            Some(x) => *x = publication_builtin_topic_data,
-            None => self
-                .matched_publication_list
-                .push(publication_builtin_topic_data),
-        }
+            Some(x) => {
+                *x = publication_builtin_topic_data;
+                false
+            }
+            None => {
+                self.matched_publication_list
+                    .push(publication_builtin_topic_data);
+                true
+            }
+        };
         self.subscription_matched_status.current_count = self.matched_publication_list.len() as i32;
-        self.subscription_matched_status.current_count_change += 1;
-        self.subscription_matched_status.total_count += 1;
-        self.subscription_matched_status.total_count_change += 1;
+        if is_new_match {
+            self.subscription_matched_status.current_count_change += 1;
+            self.subscription_matched_status.total_count += 1;
+            self.subscription_matched_status.total_count_change += 1;
+        }
     }
 
     pub fn remove_matched_publication(&mut self, publication_handle: &InstanceHandle) {
